@@ -91,16 +91,18 @@ Definition is_dotdot (c : comp) : bool := bytes_eqb c [DOT; DOT].
 Definition is_empty (c : comp) : bool := match c with [] => true | _ => false end.
 
 (* [walk budget t follow_last cur rest]: resolve the components [rest] starting in the
-   canonical directory [cur].  Result: the canonical path of the last component, which
-   may or may not exist; every directory on the way exists.  None = ENOENT / ENOTDIR /
-   ELOOP. *)
+   canonical directory [cur].  [WPath p]: the canonical path of the last component, which
+   may or may not exist, every directory on the way exists.  [WNoEnt]: a component in the
+   middle is missing (ENOENT).  [WErr]: ENOTDIR / ELOOP. *)
+Inductive walk_res := WPath (p : path) | WNoEnt | WErr.
+
 Fixpoint walk (budget : nat) (t : tree) (follow_last : bool) (cur : path) (rest : list comp) {struct budget}
-  : option path :=
-  (fix go (cur : path) (rest : list comp) {struct rest} : option path :=
+  : walk_res :=
+  (fix go (cur : path) (rest : list comp) {struct rest} : walk_res :=
      match rest with
-     | [] => Some cur
+     | [] => WPath cur
      | c :: rest' =>
-         if negb (is_dir_node (node_at t cur)) then None
+         if negb (is_dir_node (node_at t cur)) then WErr
          else if is_empty c || is_dot c then go cur rest'
          else if is_dotdot c then go (parent cur) rest'
          else
@@ -108,18 +110,18 @@ Fixpoint walk (budget : nat) (t : tree) (follow_last : bool) (cur : path) (rest 
            match lookup t p with
            | Some (NLink target) =>
                let last := match rest' with [] => true | _ => false end in
-               if last && negb follow_last then Some p
+               if last && negb follow_last then WPath p
                else match budget with
-                    | 0 => None
+                    | 0 => WErr
                     | S b =>
                         match target with
-                        | [] => None
+                        | [] => WNoEnt
                         | _ => walk b t follow_last (if is_abs target then [] else cur)
                                     (split_slash target ++ rest')
                         end
                     end
            | Some _ => go p rest'
-           | None => match rest' with [] => Some p | _ => None end
+           | None => match rest' with [] => WPath p | _ => WNoEnt end
            end
      end) cur rest.
 
@@ -135,8 +137,10 @@ Definition ends_in_slash (d : bytes) : bool :=
   match rev d with b :: _ :: _ => beq b SLASH | _ => false end.
 
 (* resolve an absolute path given as bytes *)
+Definition resolve3 (t : tree) (follow_last : bool) (d : bytes) : walk_res :=
+  if is_abs d then walk max_links t follow_last [] (split_slash d) else WErr.
 Definition resolve (t : tree) (follow_last : bool) (d : bytes) : option path :=
-  if is_abs d then walk max_links t follow_last [] (split_slash d) else None.
+  match resolve3 t follow_last d with WPath p => Some p | _ => None end.
 
 (* ---- the system calls used by the script engine *)
 
@@ -285,13 +289,16 @@ Definition symlink (t : tree) (target : bytes) (d : bytes) : option tree :=
 (* os.RemoveAll: absent is fine; a path ending in "." is refused; links are not followed *)
 Definition remove_all (t : tree) (d : bytes) : option tree :=
   if ends_in_dots d then None else
-  match resolve t false d with
-  | Some [] => None
-  | Some p => Some (remove_subtree t p)
-  | None => if is_abs d then Some t else None
+  match resolve3 t false d with
+  | WPath [] => None
+  | WPath p => if ends_in_slash d && negb (is_dir_node (node_at t p)) && negb (match node_at t p with None => true | _ => false end)
+               then None else Some (remove_subtree t p)
+  | WNoEnt => Some t
+  | WErr => None
   end.
 
-(* rename(2): the last components are not followed *)
+(* os.Rename: Go refuses an existing directory as the new name (EEXIST) before it calls
+   rename(2); the last components are not followed *)
 Definition move_subtree (t : tree) (p q : path) : tree :=
   map (fun e => if path_prefix p (fst e) then (q ++ skipn (length p) (fst e), snd e) else e) t.
 
@@ -304,7 +311,8 @@ Definition rename (t : tree) (src dst : bytes) : option tree :=
       | _, [], _ => None
       | _, _, None => None
       | _, _, Some n =>
-          if path_eqb p q then Some t
+          if is_dir_node (node_at t q) then None
+          else if path_eqb p q then Some t
           else if negb (is_dir_node (node_at t (parent q))) then None
           else
             match n with
@@ -312,17 +320,11 @@ Definition rename (t : tree) (src dst : bytes) : option tree :=
                 if path_prefix p q then None
                 else match node_at t q with
                      | None => Some (move_subtree t p q)
-                     | Some (NDir _) =>
-                         if has_children t q then None
-                         else Some (move_subtree (remove_exact t q) p q)
                      | Some _ => None
                      end
             | _ =>
-                if ends_in_slash src || ends_in_slash dst then None else
-                match node_at t q with
-                | Some (NDir _) => None
-                | _ => Some (set_node (remove_exact (remove_exact t q) p) q n)
-                end
+                if ends_in_slash src || ends_in_slash dst then None
+                else Some (set_node (remove_exact (remove_exact t q) p) q n)
             end
       end
   | _, _ => None
